@@ -504,7 +504,13 @@ func (n *Node) Timeout(h uint32, v byte) {
 }
 
 func (n *Node) SupplyTx(h H) {
-	n.known[h] = true
+	// notify-first applications call OnTransaction before the transaction becomes visible to GetTx
+	late := n.sc().E2 != nil && n.sc().E2.NotifyFirst && !n.known[h]
+	if late {
+		defer func() { n.known[h] = true }()
+	} else {
+		n.known[h] = true
+	}
 	m := n.monFor(n.d.BlockIndex)
 	wasRequested := m.reqActive && m.requested[h] && m.reqView == n.d.ViewNumber
 	c := n.ctx()
